@@ -1033,7 +1033,7 @@ class Interp:
                 if spec is not None:
                     return spec(self, None, args, kwargs, node)
             model = self.lib.lookup(func)
-            if model is not None and getattr(model, 'always', False) and not self.concrete:
+            if model is not None and (getattr(model, 'always', False) or func in getattr(self.ctx, 'force_models', ())) and not self.concrete:
                 return model(self, args, kwargs, node)
             return self.real_call(lambda: func(*args, **kwargs))
         model = self.lib.lookup(func)
